@@ -2292,6 +2292,7 @@ impl<'store> FindTextSelectionsIter<'store> {
                     }
                 } else {
                     //all in refset must be found, or none are returned at all
+                    self.buffer.clear();
                     self.drain_buffer = true;
                     return None;
                 }
